@@ -201,16 +201,18 @@ def run(ctx):
                          [drv], [pool], lines, keyf=lambda l: l if l.split()[0] in ("run", "free") else None)
         rc, outs, err = ctx.run_lines([pool], lines)
         nfail = 0
+        for l, o in zip(lines, outs):
+            r = pool_oracle(l, o)
+            if r:
+                nfail += 1
+                if nfail <= 5:
+                    ctx.oracle_failure("c33:pool:" + r[0], r[1], {"line": l[:1500], "impl_output": o[:3000],
+                                                               "replay": "echo '<line>' | <c33_pool harness>"})
         if rc != 0 or len(outs) != len(lines):
-            ctx.oracle_failure("c33:pool:crash", "c33_pool crashed (rc=%s)" % rc, {"stderr": err[-400:]})
-        else:
-            for l, o in zip(lines, outs):
-                r = pool_oracle(l, o)
-                if r:
-                    nfail += 1
-                    if nfail <= 5:
-                        ctx.oracle_failure("c33:pool:" + r[0], r[1], {"line": l[:1500], "impl_output": o[:3000],
-                                                                   "replay": "echo '<line>' | <c33_pool harness>"})
+            if not nfail:
+                ctx.oracle_failure("c33:pool:crash", "c33_pool stopped early (rc=%s) after %d of %d lines" % (rc, len(outs), len(lines)),
+                                   {"line": lines[min(len(outs), len(lines) - 1)][:1500], "stderr": err[-400:]})
+        elif outs:
             ctx.sample({"op": lines[len(lines) // 2][:300], "impl_and_model_trace": outs[len(lines) // 2][:600]})
         ctx.extra["pool_oracle_checked"] = len(lines)
         ctx.extra["pool_oracle_failures"] = nfail
@@ -245,7 +247,7 @@ def run(ctx):
                 elif o.startswith("DIFF"):
                     hist["diff"] += 1
                     for item in o.split()[1:4]:
-                        ctx.oracle_failure("c33:" + item, "compiled models differ (%s); all differences: %s" % (item, o[:300]),
+                        ctx.oracle_failure("c33:" + item, "compile check failed (%s); all differences: %s" % (item, o[:300]),
                                            {"case": ctext[:8000], "impl_output": o,
                                             "replay": "feed the case text to <c33_compile harness>"})
                 else:
